@@ -384,6 +384,9 @@ def run_case(case, rec):
                     rec.refuse(f'{nm}: {tn}' if tn in REFUSE else f'{nm}: raised {tn}'); last['verified'] = True; return False
             if tn == 'NotImplementedError' and nm in ('HT', 'ST') and inerts and 'cannot solve for pressure' in msg:
                 rec.refuse(f'{nm}: {tn}'); rec.hit('refused-unverified:' + nm); return False
+            if tn == 'RuntimeError' and 'S' in spec and 'root could not be solved' in msg and noisy_entropy_content(make(case, th)):
+                # the temperature solve on S(T) = target did not converge: the entropy function of these contents is not continuous (measured on the contents, no solver involved)
+                rec.refuse(f'{nm}: the temperature solve failed on contents whose liquid entropy function jumps between adjacent temperatures (thermo dependency)'); rec.hit('refused-unverified:' + nm); return False
             # (the input class is part of the key: 'C04/flash/<class>[/high-pressure]/exception/<type>@<function>')
             rec.exception('flash/' + cls + pb, e, what=f'vle({spec}) on {ids} ({cls}) raised {tn}: {msg[:140]} - not a documented refusal for this specification and these inputs'); return False
 
@@ -759,6 +762,22 @@ def entropy_noise(s, n=16, dT=5e-5):
     except Exception as e:
         if isinstance(e, (TypeError, AttributeError, NameError, KeyError, IndexError)): raise
         return 0.0
+
+
+def noisy_entropy_content(s):
+    """does the entropy function of the stream's present contents jump between adjacent temperatures (the quantised liquid entropy integrals of the thermo dependency: benzene by whole
+    J/mol/K)?  measured on an all-liquid copy of the contents at a few temperatures; a temperature solve on such a function may legitimately fail to converge"""
+    try:
+        c = s.copy()
+        try: c.phase = 'l'
+        except Exception: return False
+        for T in (300., 350., 400., 450.):
+            c.T = T
+            if entropy_noise(c) > 1e-6 * max(abs(float(c.S)), 1.0): return True
+        return False
+    except Exception as e:
+        if isinstance(e, (TypeError, AttributeError, NameError, KeyError, IndexError)): raise
+        return False
 
 
 def raoult_split(zv, K, nl=0.0):
@@ -1364,6 +1383,9 @@ def history_clauses(h, rec):
             if 280. <= s.T <= 450. and 2e4 <= s.P <= 1e6 and flash(fr, 'fresh', T=s.T, P=s.P):
                 V3 = vfrac(fr, vidx); key = spec2 + '/history/' + mode
                 obs('reflash:' + spec2 + '/history', abs(V3 - V2) - vb)
+                if abs(V3 - V2) > REFLASH_TOL + vb and 0 < V3 < 1 and h['kind'] == 'family' and not (n2A or n2B) and \
+                        reference_limit(rec, th, tuple(chems[i] for i in idsB), fr, idsB, vidx, str(idsB), float(s.T), float(s.P), f'a {spec2[0]}/V flash of a history'):
+                    V3 = vfrac(fr, vidx)      # the reference flash itself was an iterate of the fixed point (recorded finding, filed there): judged against its limit
                 if abs(V3 - V2) > REFLASH_TOL + vb:
                     m_ = dew_T_mechanism(th, tuple(chems[i] for i in idsB), np.array(xB), float(s.P))      # the recorded dew-solver finding reaching the flash
                     if m_: key = spec2 + m_
